@@ -31,7 +31,11 @@
       on the module describes the code as it was BEFORE the repair (DESIGN.md section 8, D6 / D7):
         D_RenameAfterFailedStep  offsetDB.save only logs a failed Write/Sync and still renames
         D_NoFsync                offset.Save has no fsync step
-      Both are FALSE in every configuration that describes the code.  The check also runs each mutant
+        M_ZeroOffsetsWritten     (mechanism, TRUE = the code) the writer emits every stream of a job
+                                 whatever its offset; FALSE = "zero offsets carry no information":
+                                 streams at 0 (what Truncate = truncateJob leaves) and all-zero jobs
+                                 are skipped, so {a:1, b:0} comes back as {a:1} -- never held
+      The D_ switches are FALSE and M_ZeroOffsetsWritten is TRUE in every configuration that describes the code.  The check also runs each mutant
       and TLC MUST reject it (FailedStepKeepsOld / DurableBeforeReplace / AlwaysLoadable violated): this
       keeps "a failed step is never followed by the rename" and "fsync before rename" shown necessary,
       and the mutant's counterexample is a fault schedule that is replayed on the real code.
@@ -54,6 +58,7 @@ CONSTANTS Site,                      \* "file" | "generic"
           MaxFaults,
           D_RenameAfterFailedStep,   \* MUTANT (pre-f12db3f): Write/Sync errors are logged, Rename still happens
           D_NoFsync,                 \* MUTANT (pre-5cb7036): offset.Save has no fsync before Rename
+          M_ZeroOffsetsWritten,      \* mechanism: offset 0 is written like any other offset (FALSE = mutant)
           MidSaveCommits,            \* commits may interleave with the steps of a save
           CrashAction,               \* explore an explicit Crash step as well
           DoExport,                  \* print replayable schedules
@@ -93,8 +98,11 @@ AbsentView == <<[t |-> "A", src |-> 0, st |-> 0, off |-> 0]>>       \* the name 
 EmptyVec == [s \in Streams |-> -1]
 HasOffsets(v) == \E s \in Streams : v[s] # -1
 \* what the writer appends for one job (jobs without offsets are skipped)
-Entry(j, v) == IF ~HasOffsets(v) THEN <<>>
-               ELSE <<H(j)>> \o SelectSeq([s \in Streams |-> S(j, s, v[s])], LAMBDA tok : tok.off # -1)
+Entry(j, v) == IF M_ZeroOffsetsWritten
+               THEN IF ~HasOffsets(v) THEN <<>>
+                    ELSE <<H(j)>> \o SelectSeq([s \in Streams |-> S(j, s, v[s])], LAMBDA tok : tok.off # -1)
+               ELSE IF \A s \in Streams : v[s] <= 0 THEN <<>>                                   \* mutant
+                    ELSE <<H(j)>> \o SelectSeq([s \in Streams |-> S(j, s, v[s])], LAMBDA tok : tok.off > 0)
 
 \* the previous run left a good, durable offsets file with these vectors
 InitVec == [j \in Jobs |-> [s \in Streams |-> IF j = 1 \/ s = 1 THEN 1 ELSE -1]]
@@ -238,6 +246,18 @@ Commit(j, s) ==
   /\ sched' = IF mid \/ pc # "idle" THEN <<>> ELSE Append(sched, <<"c", j, s>>)
   /\ UNCHANGED <<nsaves, nfaults, sfail, crashed>> /\ UNCHANGED fsvars /\ UNCHANGED pvars
 
+Truncate(j) == \* jobProvider.truncateJob: under the job lock every stream of the job is reset to 0
+  /\ Site = "file" /\ ncommits < MaxCommits
+  /\ MidSaveCommits \/ pc = "idle"
+  /\ \E s \in Streams : jobs[j][s] > 0
+  /\ LET v == [s \in Streams |-> IF jobs[j][s] = -1 THEN -1 ELSE 0] IN
+       /\ jobs' = [jobs EXCEPT ![j] = v]
+       /\ held' = [held EXCEPT ![j] = @ \cup {v}]
+  /\ ncommits' = ncommits + 1
+  /\ mid' = (mid \/ pc # "idle")
+  /\ sched' = IF mid \/ pc # "idle" THEN <<>> ELSE Append(sched, <<"t", j, 0>>)
+  /\ UNCHANGED <<nsaves, nfaults, sfail, crashed>> /\ UNCHANGED fsvars /\ UNCHANGED pvars
+
 Begin == /\ nsaves < MaxSaves /\ PBegin /\ nsaves' = nsaves + 1 /\ sfail' = {}
          /\ sched' = sched
          /\ UNCHANGED <<jobs, held, ncommits, nfaults, mid, crashed>>
@@ -276,6 +296,7 @@ Init ==
 Next ==
   /\ ~crashed
   /\ \/ \E j \in Jobs, s \in Streams : Commit(j, s)
+     \/ \E j \in Jobs : Truncate(j)
      \/ Begin
      \/ \E ok \in Outcomes("open")   : Do(POpen(ok, TmpOf(nsaves)), ok, "open")
      \/ Do(PSnap, TRUE, "snap")
@@ -299,7 +320,8 @@ TypeOK ==
 \* every disk state a reader can meet -- now, or after a crash at this instant -- loads, and loads, job by
 \* job, to a vector that job held at some earlier moment (cross-job atomicity is not demanded)
 AlwaysLoadableP == \A c \in AllViews : Load(c).ok /\ \A j \in Jobs : Load(c).tab[j] \in held[j]
-NeverAheadP     == \A c \in AllViews : Load(c).ok => \A j \in Jobs, s \in Streams : Load(c).tab[j][s] <= jobs[j][s]
+\* ... and never beyond anything committed so far (a truncation lowers the current table, hence "some held vector")
+NeverAheadP     == \A c \in AllViews : Load(c).ok => \A j \in Jobs, s \in Streams : \E v \in held[j] : Load(c).tab[j][s] <= v[s]
 \* the offsets file was replaced only by a file whose complete content had been fsynced
 DurableBeforeReplaceP == "replaced_by_undurable" \notin bad
 \* a failed Open/Write/Sync was never followed by a (successful) Rename in the same save
@@ -320,6 +342,8 @@ RECURSIVE Steps(_)
 Steps(sc) == IF sc = <<>> THEN <<>>
              ELSE <<(IF Head(sc)[1] = "c"
                      THEN [op |-> "commit", job |-> Head(sc)[2], stream |-> Head(sc)[3], fails |-> {}]
+                     ELSE IF Head(sc)[1] = "t"
+                     THEN [op |-> "truncate", job |-> Head(sc)[2], stream |-> 0, fails |-> {}]
                      ELSE [op |-> "save", job |-> 0, stream |-> 0, fails |-> Head(sc)[2]])>> \o Steps(Tail(sc))
 ExportRec == [site |-> Site, steps |-> Steps(sched),
               mayReplace |-> [k \in 1..Len(SaveFails(sched)) |-> SaveFails(sched)[k] \cap Relevant = {}],
